@@ -41,9 +41,9 @@ func Harness_C10_AddUpload() {
 	case 1:
 		p.Variables = map[string]any{}
 	case 2:
-		p.Variables = map[string]any{"a": mkNode("va", 1), "0": mkNode("v0", 0)}
+		p.Variables = map[string]any{"a": mkNode("va", zzsym.Param("depth", 1)), "0": mkNode("v0", 0)}
 	}
-	nseg := 1 + zzsym.Choice("nseg", 2)
+	nseg := 1 + zzsym.Choice("nseg", zzsym.Param("maxseg", 2))
 	path := "variables"
 	if zzsym.Choice("prefix", 4) == 0 {
 		path = "variable" // wrong prefix
